@@ -283,6 +283,14 @@ def nodeStep (d : DState) (C : Crypto) (args : List String) : DState × String :
     (match c.toNat? with
       | some c => ({ d with node := n.updatePeer c fun p => { p with helloSent := true, helloReceived := true } }, "ok")
       | none => (d, "bad-op"))
+  | ["locator"] =>
+    (d, match locator C n.mgr.coinstate with
+      | .ok ids => "ok " ++ String.intercalate "," (ids.map short)
+      | .error e => "err " ++ errKind e)
+  | "invreply" :: ids =>
+    (d, match inventoryReply C d.params n.mgr.coinstate (ids.map hx) with
+      | .ok out => "ok " ++ String.intercalate "," (out.map short)
+      | .error e => "err " ++ errKind e)
   | ["digest"] => (d, nodeDigest C n)
   | _ => (d, "bad-op")
 
